@@ -215,7 +215,7 @@ def run_case(case, ctx):
         if os.path.exists(out):
             os.remove(out)
         S, rec, err = run_one(job, out, chooser, case['cap'])
-        if not S.queues or not S.trace or not rec.py:
+        if not S.queues or not S.trace or (not rec.py and err is None and not S.deadlock):
             # the pipeline did not go through the instrumented Queue / Thread / open (e.g. after a refactoring): nothing was controlled
             return {'inconclusive': 'instrumentation not reached: %d queues, %d scheduled operations, %d recorded writes' % (len(S.queues), len(S.trace), len(rec.py)),
                     'counters': {'executions': 0}}
